@@ -105,11 +105,13 @@ def matching_case(case, ctx):
             except Exception:  # noqa: BLE001
                 pass
             ctx.label("after_call_with_other_loci")
+        df_in = df.copy()
         try:
-            m = extract_matching_loci(df.copy(), fa, n_jobs=1, **kw)
+            m = extract_matching_loci(df_in, fa, n_jobs=1, **kw)
         except Exception as e:  # noqa: BLE001
             ctx.label("exception_" + type(e).__name__)
             raise Rejected() from e
+        require(df_in.equals(df), "loci-frame-modified", "the caller's loci DataFrame was changed")
         m2 = None
         if case.get("n_jobs2"):
             m2 = sut(extract_matching_loci, df.copy(), fa, n_jobs=case["n_jobs2"], **kw)
